@@ -27,6 +27,11 @@ package eventscope
 //@   ensures old(has(es.eventsCallbacks, eID)) ==> forall(k, 0 <= k && k < old(len(es.eventsCallbacks[eID])) ==> ref(es.eventsCallbacks[eID][k]) == old(ref(es.eventsCallbacks[eID][k])))
 
 // the parent's listeners run before the child's; a parent error stops the trigger
+// a child event scope hangs on exactly the parent it was given (no shortcut past an ancestor that
+// has no listeners yet: it may get some later), with an empty listener table of its own
+//@ func NewChild [C11]
+//@   modifies $none
+//@   ensures typeis(result, "*ChildEventScope") && fresh(ref(as(result, "*ChildEventScope"))) && as(result, "*ChildEventScope").parent == parent
 //@ func (*ChildEventScope).Trigger [C11]
 //@   layers contract trace lock
 //@   requires es.parent != nil
